@@ -182,6 +182,7 @@ void htp_tx_destroy_incomplete(htp_tx_t *tx) {
     }
 
     htp_hook_destroy(tx->hook_request_body_data);
+    htp_hook_destroy(tx->hook_response_body_data);
 
     // Response fields.
 
